@@ -315,8 +315,8 @@ static bool compare_probe(const struct probe *got, const struct probe *want, con
 static const char *const HOPS[] = { "flip1", "flip7", "flip64", "gamma0.5", "gamma2.5", "geometric0.3", "std_normal",
                                     "exponential", "alias", "loaded_dice", "terminate", "initialize-other",
                                     "geometric1.0", "geometric0.7", "gamma1.0", "std_gamma2.5", "negbin2,1.0",
-                                    "chisquared1", "std_beta0.5,0.5", "std_gamma2.5+1ulp" };
-#define NHOPS 20
+                                    "chisquared1", "std_beta0.5,0.5", "std_gamma2.5+1ulp", "initialize-seed0" };
+#define NHOPS 21
 #define NVALOPS 18 /* the ops that return a value (everything but terminate / initialize-other), renumbered */
 static const int VALOP[NVALOPS] = { 0, 1, 2, 3, 4, 5, 6, 7, 8, 9, 12, 13, 14, 15, 16, 17, 18, 19 };
 
@@ -344,7 +344,9 @@ static uint64_t do_hist_op(int op)
     case 17: r = dbits(cmb_random_chisquared(1.0)); break;
     case 18: r = dbits(cmb_random_std_beta(0.5, 0.5)); break;
     /* a shape one unit in the last place from the one of op 15: parameters remembered between calls are remembered exactly */
-    default: r = dbits(cmb_random_std_gamma(nextafter(2.5, 3.0))); break;
+    case 19: r = dbits(cmb_random_std_gamma(nextafter(2.5, 3.0))); break;
+    /* the very seed that may be set again after the history: seeding restarts the stream also when the seed is the one in use */
+    default: cmb_random_initialize(SEEDS[0]); break;
     }
     vx_transition();
     return r;
